@@ -3,7 +3,9 @@
 The real Walker (fs/walk.py) on MemoryFS / OSFS / SubFS / MountFS is compared with the
 extracted walker model (Walk/WalkModel.v with Walk/WalkOpts.v): exact emitted sequence
 for walk/files/dirs/info in both search orders; and with the recursive listing reference
-on unfiltered walks (every resource exactly once)."""
+on unfiltered / depth-limited walks from every start directory (every resource exactly once, depth counted
+from the start directory).  The objects walked include the fs.wrap wrappers (cache_directory, read_only), WrapFS
+and SubFS compositions, fresh and after a preceding partially (or fully) consumed scandir/walk on the same object."""
 from __future__ import print_function
 
 import itertools
@@ -143,7 +145,70 @@ def make_fs(kind, ents):
         mf.mount("m", inner)
         fs = mf.opendir("m")
         return fs, lambda: mf.close()
+    if kind in WRAP_KINDS:
+        from fs.wrap import cache_directory, read_only
+        from fs.wrapfs import WrapFS
+        # the wrapped MemoryFS is never modified by a walk: built once per tree, a NEW wrapper object per case
+        key = (id(ents), kind in ("cachedsub", "subcached"))
+        if key not in _BASES:
+            m = MemoryFS()
+            if key[1]:
+                m.makedirs("x/y")
+                build(m, ents, "/x/y")
+            else:
+                build(m, ents)
+            _BASES[key] = (m, ents)     # keeps ents alive, so id(ents) stays unique
+        m = _BASES[key][0]
+        fs = {"cached": lambda: cache_directory(m), "ro": lambda: read_only(m), "wrap": lambda: WrapFS(m),
+              "rocached": lambda: read_only(cache_directory(m)), "cachedro": lambda: cache_directory(read_only(m)),
+              "cachedsub": lambda: cache_directory(m.opendir("x/y")),
+              "subcached": lambda: cache_directory(m).opendir("x/y")}[kind]()
+        return fs, lambda: None
     raise ValueError(kind)
+
+
+_BASES = {}
+WRAP_KINDS = ("cached", "ro", "wrap", "rocached", "cachedro", "cachedsub", "subcached")
+
+
+def do_peek(fs, peek):
+    """A preceding, partially consumed iteration on the same object: peek = [method, arg, k, namespaces];
+    method 'scandir' (arg = directory) or files/dirs/info/walk (arg = search order); k entries are consumed
+    (k < 0: all of them) and the iterator is dropped.  Nothing is modified."""
+    method, arg, k, ns = peek
+    try:
+        if method == "scandir":
+            it = fs.scandir(arg, namespaces=ns)
+        elif method == "walk":
+            it = fs.walk(search=arg, namespaces=ns)
+        elif method == "info":
+            it = fs.walk.info(search=arg, namespaces=ns)
+        else:
+            it = getattr(fs.walk, method)(search=arg)
+        it = iter(it)
+        n = 0
+        for _x in it:
+            n += 1
+            if 0 <= k <= n:
+                break
+        del it
+    except Exception as e:  # noqa  (the walk under test will show the problem)
+        return common.exc_name(e)
+    return None
+
+
+def peek_variants(ents, ks=(1, 2)):
+    out = []
+    for d in ["/"] + dir_paths(ents):
+        for k in ks:
+            out.append(["scandir", d, k, None])
+    for m in ("files", "dirs", "info", "walk"):
+        for search in ("breadth", "depth"):
+            for k in ks:
+                out.append([m, search, k, None])
+    out.append(["info", "breadth", -1, None])
+    out.append(["scandir", "/", 1, ["details"]])
+    return out
 
 
 def explore(tier, seed):
@@ -180,6 +245,34 @@ def explore(tier, seed):
             for df in (False, True):
                 cases.append(("mem", deep[0][1] + [(".d", None), ("F.TXT", None), ("a*b", [("q", None)])], "info", "/", df,
                               {key: [pat]}))
+    # (4) every start directory of the tree x max_depth x both orders x 4 methods (depth is counted from the start
+    #     directory, wherever it lies); also through wrappers
+    tree3 = [("p", [("src", [("main.py", None), ("pkg", [("mod.py", None), ("inner", [("deep.py", None), ("core", [
+        ("deeper.py", None)])])]), ("empty", [])]), ("docs", [("i.rst", None)]), ("s.py", None)]), ("r.txt", None)]
+    start_trees = [deep, tree2, tree3] + [random_tree(rnd, [rnd.randint(8, 30)]) for _ in range(20 if thorough else 4)]
+    for ti, ents in enumerate(start_trees):
+        for start in ["/"] + dir_paths(ents):
+            for md in (None, 0, 1, 2, 3):
+                for df in (False, True):
+                    for what in ("info", "files", "dirs", "walk"):
+                        kind = "mem" if ti != 2 or thorough else ("mem", "cached", "sub", "ro")[(md or 0) % 4]
+                        cases.append((kind, ents, what, start, df, {} if md is None else {"max_depth": md}))
+    # (5) wrappers x preceding partially consumed scandir / walk on the same object (nothing is modified, so the
+    #     expected result is that of the fresh object) x methods x orders x a few option sets
+    peek_trees = [deep, tree3] + ([tree2] if thorough else [])
+    optsets = [{}, {"max_depth": 2}, {"filter": ["*.txt", "*.py"]}] + ([{"exclude_dirs": ["a", "pkg"]}] if thorough else [])
+    for ents in peek_trees:
+        peeks = [None] + peek_variants(ents, ks=(1, 2, 3) if thorough else (1, 2))
+        for kind in ("mem", "sub", "mount") + WRAP_KINDS:
+            for pi, peek in enumerate(peeks):
+                for oi, opts in enumerate(optsets):
+                    for df in (False, True):
+                        for wi, what in enumerate(("info", "walk", "files", "dirs")):
+                            # quick: every (kind, peek) with every method and order, option sets rotated
+                            if not thorough and (pi + wi + df) % len(optsets) != oi:
+                                continue
+                            start = "/" if (pi + oi) % 3 else "/" + ents[0][0]
+                            cases.append((kind, ents, what, start, df, opts, peek))
     n_rand = 2500 if thorough else 350
     for i in range(n_rand):
         ents = random_tree(rnd, [rnd.randint(1, 60 if thorough else 25)])
@@ -196,9 +289,18 @@ def explore(tier, seed):
         start = rnd.choice(dirs)
         if not (opts.get("filter_glob") or opts.get("exclude_glob")) and rnd.random() < 0.3:
             start = rnd.choice([start.lstrip("/") or "/", start + "/", start])
-        kind = rnd.choice(["mem", "mem", "mem", "sub", "mount"] + (["os"] if i % 4 == 0 else []))
-        cases.append((kind, ents, rnd.choice(["info", "walk", "files", "dirs"]), start, rnd.random() < 0.5, opts))
+        kind = rnd.choice(["mem", "mem", "mem", "sub", "mount"] + list(WRAP_KINDS) + (["os"] * 3 if i % 4 == 0 else []))
+        peek = None
+        if rnd.random() < 0.4:
+            peek = rnd.choice(peek_variants(ents, ks=(1, 2, 3)))
+            if rnd.random() < 0.3:
+                peek = peek[:3] + [["details"]]
+        cases.append((kind, ents, rnd.choice(["info", "walk", "files", "dirs"]), start, rnd.random() < 0.5, opts, peek))
     return cases
+
+
+def peek_of(case):
+    return case[6] if len(case) > 6 else None
 
 
 def dir_paths(ents, base=""):
@@ -217,9 +319,12 @@ def os_order(ents):
 def evaluate(cases):
     results = []
     lines = []
-    for kind, ents, what, start, df, opts in cases:
+    for case in cases:
+        kind, ents, what, start, df, opts = case[:6]
         fs, cleanup = make_fs(kind, ents)
         try:
+            if peek_of(case):
+                do_peek(fs, peek_of(case))
             if kind == "os":
                 # the OS decides the listing order: rebuild the model tree in scandir order
                 def reorder(e, p):
@@ -232,12 +337,17 @@ def evaluate(cases):
             cleanup()
         results.append(impl)
         lines.append("walk %s %s" % (what, " ".join(tree_tokens(render_tree(ents)) + opts_tokens(start, df, opts))))
-    model = common.run_model_parallel(lines, chunk=2000)
+    for m, _e in _BASES.values():
+        m.close()
+    _BASES.clear()
+    uniq = sorted(set(lines))       # the same walk on another object / after a peek has the same expected result
+    um = dict(zip(uniq, common.run_model_parallel(uniq, chunk=2000)))
+    model = [um[l] for l in lines]
     return results, model, lines
 
 
 def known_class(case):
-    kind, ents, what, start, df, opts = case
+    kind, ents, what, start, df, opts = case[:6]
     pats = (opts.get("filter_glob") or []) + (opts.get("exclude_glob") or [])
     if any("**" in p for p in pats):
         return "walker glob filter with '**' (regex crosses component boundaries)"
@@ -254,17 +364,29 @@ def run(report, forced=None):
     bad = [i for i in range(len(cases)) if impl[i] != model[i]]
     # reference check on the implementation alone: unfiltered walks list every resource once
     ref_bad = []
-    for i, (kind, ents, what, start, df, opts) in enumerate(cases):
-        if opts or what != "info" or start != "/" or not impl[i].startswith("["):
+    n_ref = 0
+    for i, case in enumerate(cases):
+        kind, ents, what, start, df, opts = case[:6]
+        if set(opts) - {"max_depth"} or what == "walk" or not impl[i].startswith("["):
             continue
-        expect = sorted(r_pair(r_str, r_bool, e) for e in all_paths(ents))
-        got = sorted(x for x in impl[i][1:-1].split(";") if x)
-        if got != expect:
+        expect = reference_listing(ents, start, opts.get("max_depth"), what)
+        if expect is None:
+            continue
+        n_ref += 1
+        if normalised_report(impl[i], what) != expect:
             ref_bad.append(i)
     seen = set()
-    for i in ref_bad[:5]:
+    seen_ref = set()
+    for i in ref_bad:
+        sig = (cases[i][0], (peek_of(cases[i]) or [None])[0], cases[i][4], cases[i][3] == "/", tuple(cases[i][5]))
+        if sig in seen_ref or len(seen_ref) >= 6:
+            continue
+        seen_ref.add(sig)
+        c = cases[i]
         report.violation(dict(kind="walk-does-not-list-every-resource-once", case=case_json(cases[i]),
-                              implementation=impl[i], theorem="Props/C13.v C13_bfs_reports_listing"))
+                              implementation=impl[i],
+                              expected_from_tree=reference_listing(c[1], c[3], c[5].get("max_depth"), c[2]),
+                              theorem="Props/C13.v C13_bfs_reports_listing"))
     for i in bad:
         if i in ref_bad:
             continue
@@ -273,7 +395,8 @@ def run(report, forced=None):
         if known:
             report.known_finding(known)
             continue
-        sig = (cases[i][2], cases[i][4], tuple(sorted(cases[i][5])))
+        sig = (cases[i][2], cases[i][4], tuple(sorted(cases[i][5])), cases[i][0] in WRAP_KINDS,
+               (peek_of(cases[i]) or [None])[0])
         if sig in seen or len(seen) >= 8:
             continue
         seen.add(sig)
@@ -285,9 +408,16 @@ def run(report, forced=None):
         report.violation(dict(kind="correspondence-broken", vm=vm_mism, theorem="Props/C13.v"), no_input=True)
     nontrivial = set((model[i]) for i in range(len(cases)) if len(model[i]) > 4)
     dist = {}
+    by_kind, by_peek, sub_md = {}, {}, 0
     for c in cases:
         k = "%s/%s/%s/%s" % (c[0], c[2], "dfs" if c[4] else "bfs", ",".join(sorted(c[5])) or "-")
         dist[k] = dist.get(k, 0) + 1
+        by_kind[c[0]] = by_kind.get(c[0], 0) + 1
+        pk = peek_of(c)
+        if pk:
+            by_peek[pk[0]] = by_peek.get(pk[0], 0) + 1
+        if c[3].strip("/") and "max_depth" in c[5]:
+            sub_md += 1
     cov = dict(evaluations=len(cases), distinct_nontrivial=len(nontrivial),
                rule="all trees with <= 3 (quick) / 4 (thorough) nodes over 3 names x both orders x 4 methods x "
                     "max_depth, plus random trees (<= 25/60 nodes, dot-files, metacharacter names) x random "
@@ -296,6 +426,12 @@ def run(report, forced=None):
                samples=[dict(case=case_json(cases[i]), implementation=impl[i][:300]) for i in (0, len(cases) // 2, len(cases) - 1)],
                traces_validated_against_impl=len(cases) - len(bad), disagreements_checked=len(bad),
                reference_failures=len(ref_bad), vm_compute_crosschecked=n_vm,
+               reference_rule="info/files/dirs without name/glob filters, any start directory, any max_depth: the "
+                              "reported set = resources of the tree snapshot at most max(max_depth, 1) levels below "
+                              "the start directory, each exactly once (computed from the tree, not by the library)",
+               reference_listing_checked=n_ref, evaluations_per_object_kind=by_kind,
+               evaluations_after_partially_consumed_iterator=by_peek,
+               evaluations_max_depth_from_subdirectory=sub_md,
                distribution=dict(sorted(dist.items(), key=lambda kv: -kv[1])[:40]), exhaustive=True,
                exhaustive_scope="small trees; random trees/options are sampled")
     return report.finish(proof, cov, assumptions=[
@@ -312,8 +448,46 @@ def all_paths(ents, base=""):
     return out
 
 
+def reference_listing(ents, start, max_depth, what):
+    """Sorted normalised report expected from the tree snapshot alone: what lies under `start` at most
+    max(max_depth, 1) levels below it (the start directory itself is always scanned); None if start is no directory."""
+    from fs.path import abspath, normpath
+    try:
+        st = abspath(normpath(start))
+    except Exception:
+        return None
+    if st != "/" and st not in dir_paths(ents):
+        return None
+    base = st.rstrip("/")
+    out = []
+    for p, is_dir in all_paths(ents):
+        if not p.startswith(base + "/"):
+            continue
+        level = p[len(base) + 1:].count("/") + 1
+        if max_depth is not None and level > max(max_depth, 1):
+            continue
+        if what == "info":
+            out.append((p, is_dir))
+        elif (what == "dirs") == is_dir:
+            out.append(p)
+    return sorted(out)
+
+
+def normalised_report(rendered, what):
+    """Rendered files/dirs/info result -> sorted list with the reported paths normalised."""
+    from fs.path import abspath, normpath
+
+    def path(x):
+        return abspath(normpath(common.untok(x[1:] or "-")))
+    items = [x for x in rendered[1:-1].split(";") if x]
+    if what == "info":
+        return sorted((path(x[1:-1].split("|")[0]), x[1:-1].split("|")[1] == "T") for x in items)
+    return sorted(path(x) for x in items)
+
+
 def case_json(c):
-    return dict(backend=c[0], tree=c[1], method=c[2], start=c[3], depth_first=c[4], options=c[5])
+    return dict(backend=c[0], tree=c[1], method=c[2], start=c[3], depth_first=c[4], options=c[5],
+                preceding_partial_iteration=peek_of(c))
 
 
 def replay(report, path):
@@ -323,7 +497,8 @@ def replay(report, path):
 
     def ents(x):
         return [(n, None if s is None else ents(s)) for n, s in x]
-    case = (c["backend"], ents(c["tree"]), c["method"], c["start"], c["depth_first"], c["options"])
+    case = (c["backend"], ents(c["tree"]), c["method"], c["start"], c["depth_first"], c["options"],
+            c.get("preceding_partial_iteration"))
     impl, model, _ = evaluate([case])
     print("implementation:", impl[0])
     print("model         :", model[0])
